@@ -8,7 +8,7 @@
 (*   [op |-> "dget",  k, obs]        d?:k          remote dictionary get    *)
 (*   [op |-> "eval",  k, obs]        f("k")        evaluate text remotely   *)
 (*   [op |-> "assign",k, v, obs]     f("k::<v>")   assignment by text       *)
-(*   [op |-> "evalx", k, obs]        f("k=7")      an expression over k;    *)
+(*   [op |-> "evalx", k, obs]        f("k*2")      an expression over k;    *)
 (*        obs = [t |-> "expr", v |-> id] when the result is what the        *)
 (*        expression yields for the value id (decided by a local twin)      *)
 (*   [op |-> "call1", v, obs]        f(:id,,v)     remote function call     *)
